@@ -286,6 +286,11 @@ def _check_verify(ck: Checker, rule: str) -> None:
     cp = copy[0]
     prots = [(n, c) for n in g.nodes.values() for c in calls_at(n) if is_method_call(c, "protect") and norm(c.func.value) == "self"]
     ck.floor(rule, len(prots), 1, "protect calls in HashFileDB.add")
+    # the verify flag: any local whose value is read from the "verify" option / self.verify (whatever it is called)
+    vnames = {"verify"} if fn.has_param("verify") else set()
+    for a in walk_own(fn.node):
+        if isinstance(a, ast.Assign) and len(a.targets) == 1 and isinstance(a.targets[0], ast.Name) and ("'verify'" in norm(a.value) or norm(a.value) == "self.verify"):
+            vnames.add(a.targets[0].id)
     for n, c in prots:
         # after the copy
         ck.require(avoiding_path(g, n.id, lambda x: x.id == cp.id) is None, rule, fn, n,
@@ -298,10 +303,10 @@ def _check_verify(ck: Checker, rule: str) -> None:
                if is_method_call(c2, "check") and norm(c2.func.value) == "self"}
         # on the verify edge the check precedes protect
         def skip(a, lab, b):
-            return a.kind == "test" and isinstance(a.ast, ast.Name) and a.ast.id == "verify" and lab == "F"
+            return a.kind == "test" and isinstance(a.ast, ast.Name) and a.ast.id in vnames and lab == "F"
 
         reached = g.reach([d for lab, d in head.succ if lab == "T"], skip_node=lambda x: x.id in chk, skip_edge=skip)
-        has_verify_test = any(a.kind == "test" and isinstance(a.ast, ast.Name) and a.ast.id == "verify" and head.id in a.loops for a in g.nodes.values())
+        has_verify_test = any(a.kind == "test" and isinstance(a.ast, ast.Name) and a.ast.id in vnames and head.id in a.loops for a in g.nodes.values())
         bad = n.id in reached and has_verify_test
         ck.require(bool(chk) and has_verify_test and not bad, rule, fn, n,
                    "with verify on, each object is integrity-checked before it is protected",
